@@ -201,6 +201,16 @@ func (s *V2Session) buildAndSend(ctx context.Context, c ipmi.Command) error {
 		if err := types.InnermostEquals(ipmi.LayerTypeMessage); err != nil {
 			return err
 		}
+		// the session layer only verifies the signature of packets that claim
+		// to be authenticated, so a packet with the flag cleared, or one meant
+		// for another session, must not be taken as our response
+		if s.integrityAlgorithm != nil && !s.v2SessionLayer.Authenticated {
+			return fmt.Errorf("response is not authenticated")
+		}
+		if s.v2SessionLayer.ID != s.LocalID {
+			return fmt.Errorf("response is for session %#x, ours is %#x",
+				s.v2SessionLayer.ID, s.LocalID)
+		}
 		code := s.messageLayer.CompletionCode
 		// must increment here, otherwise we'll miss temporary codes at the
 		// higher levels
